@@ -373,12 +373,19 @@ class ClientRun:
         self.loop = get_loop()
         self.proto = ResponseHandler(self.loop)
         self.tr = attach(self.loop, self.proto)
+        self.msgs: List[list] = []
+        self.loop_exc: List[str] = []
+        self.begin(lim, until_eof=until_eof, with_body=with_body)
+
+    def begin(self, lim: Limits, *, until_eof: bool = False, with_body: bool = True) -> None:
+        """Start the next exchange on this connection the way ClientRequest.send() does: the response of THIS
+        request is to be read with THESE limits (a pooled connection is reused with per-request settings)."""
         self.proto.set_response_params(read_until_eof=until_eof, skip_payload=not with_body,
                                        read_bufsize=lim.limit, max_line_size=lim.max_line,
                                        max_field_size=lim.max_field, max_headers=lim.max_headers,
                                        auto_decompress=False)
-        self.msgs: List[list] = []
-        self.loop_exc: List[str] = []
+        self.msgs = []
+        self.loop_exc = []
 
     def _pull(self) -> None:
         for _ in range(10000):
@@ -408,7 +415,7 @@ class ClientRun:
             if d:
                 rec[2] += d
 
-    def run(self, data: bytes, cuts: Sequence[int]) -> dict:
+    def run(self, data: bytes, cuts: Sequence[int], keep_open: bool = False) -> dict:
         from aiohttp.client_exceptions import ClientError
         from aiohttp.http_exceptions import HttpProcessingError
 
@@ -462,11 +469,15 @@ class ClientRun:
                    "closed": bool(self.tr.closing), "loopExc": list(self.loop_exc),
                    "taskExc": type(pe).__name__ if pe is not None else "",
                    "upgraded": bool(getattr(self.proto, "upgraded", False))})
+        if not keep_open:
+            self.close()
+        return ev
+
+    def close(self) -> None:
         if not self.tr.closed:
             self.tr.drop(None)
-            loop.run_until_idle()
-        loop.exc_contexts.clear()
-        return ev
+            self.loop.run_until_idle()
+        self.loop.exc_contexts.clear()
 
 
 def client_key(ev: dict) -> tuple:
@@ -604,6 +615,7 @@ class Group:
 
     def __init__(self, mode: str, data: bytes, lim: Limits, *, until_eof: bool = False, with_body: bool = True,
                  src: str = "", label: str = "", decode: bool = False, expect: Sequence[bytes] = ()) -> None:
+        self.prelude: List[list] = []  # earlier exchanges on the same client connection: [stream, limits, cuts]
         self.decode = decode          # auto-decompression on: payloads hold decoded bytes
         self.expect = list(expect)    # plain text of the bodies the generator compressed
         self.mode = mode
@@ -653,6 +665,10 @@ class Group:
         self._add(("client", client_key(ev)), lambda: ev, cuts)
         return ev
 
+    def add_client_event(self, ev: dict, cuts: Sequence[int]) -> None:
+        """Record a client-connection observation made elsewhere (an exchange on a reused connection)."""
+        self._add(("client", client_key(ev)), lambda: ev, cuts)
+
     def conn(self, harness: ConnHarness, cuts: Sequence[int]) -> dict:
         ev = harness.run(self.data, cuts)
         self._add(("conn", conn_key(ev)), lambda: ev, cuts)
@@ -695,7 +711,7 @@ def judge_groups(ctx: Any, groups: List[Group], prop: str, label: str) -> Dict[s
             ctx.violation(name, f"{name} [{g.mode}]",
                           {"stream": list(g.data), "mode": g.mode, "limits": list(g.lim.key()),
                            "until_eof": g.until_eof, "with_body": g.with_body, "cuts": cuts,
-                           "decode": g.decode, "expect": [list(b) for b in g.expect],
+                           "decode": g.decode, "expect": [list(b) for b in g.expect], "prelude": g.prelude,
                            "kind": ev["kind"] if ev else "group", "label": g.label, "src": g.src,
                            "allruns": allruns if ev is None else [], "meter": metered}, "trace")
         if not v.ok:
@@ -708,7 +724,7 @@ def judge_groups(ctx: Any, groups: List[Group], prop: str, label: str) -> Dict[s
             ctx.violation(clause, f"{clause} [{g.mode}] {g.label}",
                           {"stream": list(g.data), "mode": g.mode, "limits": list(g.lim.key()),
                            "until_eof": g.until_eof, "with_body": g.with_body, "cuts": cuts,
-                           "decode": g.decode, "expect": [list(b) for b in g.expect], "allcuts": allcuts,
+                           "decode": g.decode, "expect": [list(b) for b in g.expect], "prelude": g.prelude, "allcuts": allcuts,
                            "allruns": allruns, "meter": metered,
                            "kind": ev["kind"] if ev else "group", "label": g.label, "src": g.src,
                            "drift": [list(x) for x in (drift or ())]}, "trace")
@@ -723,6 +739,14 @@ def replay_detail(ctx: Any, detail: dict) -> int:
               with_body=detail.get("with_body", True), src="replay", label=detail.get("label", ""),
               decode=detail.get("decode", False), expect=[bytes(b) for b in detail.get("expect", [])])
     kind = detail.get("kind", "parse")
+    if detail.get("prelude"):
+        ex = [(bytes(d), Limits(*l), list(c)) for d, l, c in detail["prelude"]] + [(data, lim, detail.get("cuts") or [])]
+        g = client_exchanges(ex, "replay", detail.get("label", ""))[-1]
+        verdicts, _res = validate_batch(TRACE_MODULE, TRACE_CFG, [g.trace()])
+        v = verdicts[0]
+        devs = [str(d[1]) for d in (v.info[0] if v.info else ())]
+        print(f"replay: ok={v.ok} clause={v.clause!r} deviations={devs} events={v.pos}/{v.total}")
+        return 0 if v.ok and not devs else 1
     runs = [(k, c) for k, c in (detail.get("allruns") or [])]
     if not runs:
         cutsets = detail.get("allcuts") or [detail.get("cuts") or []]
@@ -877,3 +901,27 @@ def selftest_common(ctx: Any, good: "Group", mutants: List[Tuple[str, Any]], mod
         ok = ok and res.violated == expect
     print("selftest", "passed" if ok else "FAILED")
     return 0 if ok else 2
+
+
+def client_exchanges(exchanges: Sequence[Tuple[bytes, Limits, Sequence[int]]], src: str, label: str) -> List[Group]:
+    """Several request/response exchanges on ONE client connection (a pooled keep-alive connection), each with its own
+    per-request limits.  Every response becomes its own group and is judged against the limits of ITS request.  The
+    sequence stops at the first exchange after which the connection is no longer reusable."""
+    out: List[Group] = []
+    run: Optional[ClientRun] = None
+    for i, (data, lim, cuts) in enumerate(exchanges):
+        if run is None:
+            run = ClientRun(lim)
+        else:
+            run.begin(lim)
+        ev = run.run(data, cuts, keep_open=True)
+        g = Group("response", data, lim, src=src, label=f"{label} #{i + 1} limits={lim.key()}")
+        g.prelude = [[list(d), list(l.key()), list(c)] for d, l, c in exchanges[:i]]
+        ev["fedEof"] = False
+        g.add_client_event(ev, cuts)
+        out.append(g)
+        if ev["exc"] or ev["closed"] or ev["loopExc"] or any(not m["peof"] for m in ev["msgs"]):
+            break
+    if run is not None:
+        run.close()
+    return out
